@@ -37,14 +37,14 @@ Record tcase := mkcase {
 
 (* ---- syntactic equality of instruction graphs ---- *)
 Definition scalar_eqb' := scalar_eqb.
-Fixpoint op_eqb (a b : operation) : bool :=
+(* (placeholders of direct jumps -- ONop (Some _) -- never occur in mirrored forms: not equal to anything) *)
+Definition op_eqb (a b : operation) : bool :=
   match a, b with
   | OAssign d s, OAssign d' s' => scalar_eqb d d' && expr_eqb s s'
   | OStore i s, OStore i' s' => expr_eqb i i' && expr_eqb s s'
   | OLoad d i, OLoad d' i' => scalar_eqb d d' && expr_eqb i i'
   | OBranch t, OBranch t' => expr_eqb t t'
   | ONop None, ONop None => true
-  | ONop (Some p), ONop (Some p') => op_eqb p p'
   | _, _ => false
   end.
 Definition instr_eqb (a b : instruction) : bool :=
@@ -56,7 +56,7 @@ Fixpoint list_eqb {A} (eqb : A -> A -> bool) (a b : list A) : bool :=
   | _, _ => false
   end.
 Definition block_eqb (a b : block) : bool :=
-  (b_index a =? b_index b) && list_eqb instr_eqb (b_instrs a) (b_instrs b) &&
+  (b_index a =? b_index b) && (b_next a =? b_next b) && list_eqb instr_eqb (b_instrs a) (b_instrs b) &&
   match b_phis a, b_phis b with [], [] => true | _, _ => false end.
 Definition optexpr_eqb (a b : option expr) : bool :=
   match a, b with Some x, Some y => expr_eqb x y | None, None => true | _, _ => false end.
@@ -64,7 +64,14 @@ Definition edge_eqb (a b : edge) : bool :=
   (e_head a =? e_head b) && (e_tail a =? e_tail b) && optexpr_eqb (e_cond a) (e_cond b).
 Definition cfg_eqb (a b : cfg) : bool :=
   list_eqb block_eqb (g_blocks a) (g_blocks b) && list_eqb edge_eqb (g_edges a) (g_edges b) &&
-  optZ_eqb (g_entry a) (g_entry b) && optZ_eqb (g_exit a) (g_exit b).
+  (g_next_index a =? g_next_index b) && optZ_eqb (g_entry a) (g_entry b) && optZ_eqb (g_exit a) (g_exit b).
+Definition succ_eqb (a b : Z * option expr) : bool := (fst a =? fst b) && optexpr_eqb (snd a) (snd b).
+(* the whole tie for a mirrored (straight-line) form: same graph, and the only successor is the fall-through *)
+Definition syntactic_tie (m : mode) (addr len : Z) (i : instr) (g : cfg) (succ : list (Z * option expr)) : bool :=
+  match mirror_instr m addr i with
+  | Some (Ok g') => cfg_eqb g' g && list_eqb succ_eqb succ [(addr + len, None)]
+  | _ => false
+  end.
 
 (* ---- one sample ---- *)
 Definition FUEL : nat := 600.
@@ -145,7 +152,7 @@ Definition sample_code (c : tcase) (g : cfg) (succ : list (Z * option expr)) (sm
 
 Definition ck (c : tcase) : bool * bool :=
   (match tc_mirror c, tc_lift c with
-   | Some (Ok g'), LOk g _ => cfg_eqb g' g
+   | Some (Ok g'), LOk g succ => cfg_eqb g' g && list_eqb succ_eqb succ [(tc_addr c + tc_len c, None)]
    | Some (Err e), LErr e' => err_eqb e e'
    | Some Panic, LPanic => true
    | Some _, _ => false
